@@ -30,6 +30,9 @@ COMPOSED = {
     "C07": "C09 restricted to the two-index symmetric assembly", "C08": "C09 restricted to the two-index symmetric assembly",
     "C09": "the transform-forwarding (FWD) rules of C06, C14 and C15 (`every quantity`)",
 }
+for _pid in ("C01", "C02", "C03", "C04", "C05", "C06", "C07", "C08", "C14", "C15", "C18", "C20"):
+    COMPOSED[_pid] = (COMPOSED.get(_pid, "") + "; " if _pid in COMPOSED else "") + \
+        "the persistent-state rules of C19 (E3 caches / memoising decorators, E5, per-instance attribute caches) for the modules this property's quantities are computed in"
 for _pid, _what in COMPOSED.items():
     if _pid in CLAIMED:
         CLAIMED[_pid]["text"] += " Composed into this check: " + _what + "."
